@@ -932,6 +932,8 @@ def shrink(case):
             if h["catch"]:
                 yield dict(case, heads=hs[:i] + [dict(h, catch=False)] + hs[i + 1:])
         return
+    if "flows" not in case:  # other case kinds have no shrinker
+        return
     fl = case["flows"]
     for i in range(len(fl)):
         if len(fl) > 1:
